@@ -225,6 +225,8 @@ def decision_table(ctx, fn, g):
                 and any(isinstance(x, ast.Constant) and isinstance(x.value, str) and "urn:bt" in x.value for x in ast.walk(st)):
             plain = (isinstance(st, ast.AugAssign) and isinstance(st.target, ast.Name) and isinstance(st.op, ast.Add)) or \
                     (isinstance(st, ast.Assign) and len(st.targets) == 1 and isinstance(st.targets[0], ast.Name) and isinstance(st.value, (ast.BinOp, ast.Constant, ast.JoinedStr)))
+            if not plain and isinstance(st, ast.Expr) and _topic_list_append(st) in topic_lists(fn) and not C.in_loop(ctx, fn, st):
+                plain = True        # collected in a list that is joined with '&' once: modelled by the row trace below
             if not plain:
                 ctx.undecided("C11.3", fn, "the exact topics are not appended to the URI by plain string concatenation (`%s`); which topics a version request yields is not decided" % norm(st)[:60], st)
                 return
@@ -243,18 +245,51 @@ def decision_table(ctx, fn, g):
             for x in ast.walk(st.test):
                 idle_tests.add(x)
     rows = 0
+    tlists = topic_lists(fn)
     for (mv, pc, ver), (want_ih, want_mh) in sorted(SPEC.items()):
         env = {}
         emitted = []
+
+        lists = {}
+
+        def kind_of(e):
+            for c in ast.walk(e):
+                cs = const_str(c)
+                if cs and "urn:btih:" in cs:
+                    return "btih"
+                if cs and "urn:btmh:" in cs:
+                    return "btmh"
+            return "other"
 
         def visit(n):
             a = n.ast
             if n.kind == "stmt" and isinstance(a, ast.Assign) and len(a.targets) == 1 and isinstance(a.targets[0], ast.Name):
                 if isinstance(a.value, ast.Constant):
                     env[a.targets[0].id] = a.value.value
+                elif isinstance(a.value, (ast.Compare, ast.BoolOp, ast.UnaryOp)) and C.eval3(a.value, atom) is not None:
+                    env[a.targets[0].id] = C.eval3(a.value, atom)       # has_v2 = "meta version" in info
                 else:
                     env.pop(a.targets[0].id, None)
+                if a.targets[0].id in tlists and isinstance(a.value, ast.List) and not a.value.elts:
+                    lists[a.targets[0].id] = []
+                    return
+            if n.kind == "stmt" and isinstance(a, ast.Expr) and _topic_list_append(a) in tlists:
+                lists.setdefault(_topic_list_append(a), []).append(kind_of(a.value.args[0]))
+                return
             if n.kind == "stmt" and isinstance(a, (ast.AugAssign, ast.Assign)):
+                joined = [c for c in ast.walk(a.value) if _amp_join(c) in tlists]
+                if joined:
+                    # "&".join(topics): the collected topics, in order, separated by one '&' each
+                    items = lists.get(_amp_join(joined[0]), [])
+                    for i_, it_ in enumerate(items):
+                        if i_:
+                            emitted.append("&")
+                        emitted.append(it_)
+                    for c in ast.walk(a.value):
+                        cs = const_str(c)
+                        if cs and "&dn=" in cs:
+                            emitted.append("dn")
+                    return
                 for c in ast.walk(a.value):
                     cs = const_str(c)
                     if cs and "urn:btih:" in cs:
@@ -334,6 +369,40 @@ def decision_table(ctx, fn, g):
         ctx.decide("C11.3", fn, not problems, "row [%s]: emits %s as specified" % (label, "+".join(e for e in emitted if e != "dn")),
                    "row [%s]: %s" % (label, "; ".join(problems)), "magnet row: " + label)
     ctx.floor("magnet decision-table rows", 8, rows)
+
+
+def _topic_list_append(st):
+    """`name.append(E)` as a statement: the name, else None."""
+    v = st.value if isinstance(st, ast.Expr) else None
+    if isinstance(v, ast.Call) and isinstance(v.func, ast.Attribute) and v.func.attr == "append" and isinstance(v.func.value, ast.Name) and len(v.args) == 1 and not v.keywords:
+        return v.func.value.id
+    return None
+
+
+def _amp_join(c):
+    """`"&".join(name)`: the name, else None."""
+    if isinstance(c, ast.Call) and isinstance(c.func, ast.Attribute) and c.func.attr == "join" and const_str(c.func.value) == "&" and len(c.args) == 1 and isinstance(c.args[0], ast.Name):
+        return c.args[0].id
+    return None
+
+
+def topic_lists(fn):
+    """Locals used as a list of URI parts: defined once as `[]`, grown only by `name.append(E)` statements, read only by one
+    `"&".join(name)`."""
+    out = set()
+    names = {n.id for n in own_nodes(fn.node) if isinstance(n, ast.Name)}
+    for nm in names:
+        uses = [n for n in own_nodes(fn.node) if isinstance(n, ast.Name) and n.id == nm]
+        stores = [n for n in uses if isinstance(n.ctx, ast.Store)]
+        defs = [st for st in own_nodes(fn.node) if isinstance(st, ast.Assign) and len(st.targets) == 1 and isinstance(st.targets[0], ast.Name) and st.targets[0].id == nm]
+        if len(stores) != 1 or len(defs) != 1 or not (isinstance(defs[0].value, ast.List) and not defs[0].value.elts):
+            continue
+        apps = [st for st in own_nodes(fn.node) if isinstance(st, ast.Expr) and _topic_list_append(st) == nm]
+        joins = [c for c in own_nodes(fn.node) if _amp_join(c) == nm]
+        loads = [n for n in uses if isinstance(n.ctx, ast.Load)]
+        if apps and len(joins) == 1 and len(loads) == len(apps) + 1:
+            out.add(nm)
+    return out
 
 
 def _fold_str(ts):
